@@ -5,6 +5,28 @@ from props import rdlib as L
 
 PROP = "C03"
 TRUSTED = [
+    "harness/translate_rd.py (RDPy translator; runtime primitives Model/RDPy.lean) RE-TRANSLATES from /repo's relativedelta.py "
+    "into Generated/RDOps.lean on every run: __add__ (three Lean functions: date/datetime, relativedelta and timedelta "
+    "operand - isinstance on the declared operand type is decided statically), __radd__, __rsub__, __neg__, __abs__, __sub__, "
+    "__mul__ (integer scalar; float() / int() are the identity on the integer domain), __bool__, __eq__, __hash__ (the tuple), "
+    "and both branches of __init__ (keyword constructor incl. the unrolled ydayidx scan and the weekday coercion; "
+    "relativedelta(dt1, dt2) incl. the while loop as a fuel-bounded recursion); _fix / _set_months as before "
+    "(translate.py). Anything outside the fragment aborts with a named construct (broken tie). Proofs/RDGenEq.lean proves "
+    "Gen.f = model f for: addDt = applyTo, raddDt, rsubDt, neg, abs, addRd, subRd, addTd, mulInt, bool, eq, hashKey, "
+    "initDiff = diffN (out of fuel = NotImplemented), and initKw on the arguments the operators pass (initKw_plain); the "
+    "`_gen` theorems of the Audit file restate the property theorems over the generated definitions",
+    "STILL HAND-MODELLED, tied by sampling only: (a) the named primitives of Model/RDPy.lean = CPython behaviour "
+    "(calendar.monthrange / isleap, date/datetime.replace incl. its C-int and range errors, datetime.timedelta(...), "
+    "x + timedelta, x.weekday(), isinstance(x, datetime), datetime.fromordinal(d.toordinal()), <, > and - between "
+    "date/datetime objects incl. the same-object / UTC rule, timedelta.days/.seconds/.microseconds, weekdays[i], "
+    "attributes of a weekday object, `a or b`, truthiness of Optional values), exercised by rdgen.* on every run; "
+    "(b) the model `mk` vs the translated constructor on yearday / nlyearday / integer weekday arguments (no equality "
+    "theorem: both are compared with the implementation by rd.mk and rdgen.mk, and C03's yearday theorems are about `mk`); "
+    "(c) __div__, normalized(), __repr__, the `weeks` property, float-valued fields (not translated); "
+    "(d) the grouping of the hashed tuple into (weekday, ints, optionals) by the translator of hash((...))",
+    "the translator itself is validated on every run: every correspondence request to a hand-model op (rd.add, rd.rsub, "
+    "rd.mk, rd.expr, rd.bool, rd.hash, rd.eq, rd.diff, rd.diffn, rd.diffo) is repeated against the generated definition "
+    "(rdgen.*) and compared with the implementation",
     "Model/RelativeDelta.lean `applyTo` mirrors relativedelta.__add__ (lines 362-402) line by line incl. its error branches "
     "(assert, IllegalMonthError, replace() ValueError/TypeError, OverflowError of datetime+timedelta); tied by the "
     "correspondence ops rd.add / rd.rsub on (delta, operand) pairs (date, naive, aware operands; in- and out-of-range fields)",
@@ -73,10 +95,13 @@ def correspondence(ctx):
                 kw["days"] = rng.randint(-40, 40)
             reqs.append("rd.mk " + L.kw_wire(kw)); exp.append(L.run(lambda: L.mkrd(kw), L.rd_wire))
             ctx.count("corr_mk_yearday")
+    reqs, exp = L.with_generated(reqs, exp)
     got = ctx.driver(reqs)
     for q, e, g in zip(reqs, exp, got):
         if e != g:
             ctx.mismatch(q.split()[0], q, e, g)
+        if q.startswith("rdgen."):
+            ctx.count("corr_generated_requests")
     ctx.traces += len(reqs)
     ctx.count("corr_requests", len(reqs))
 
@@ -96,6 +121,11 @@ def check_pair(ctx, kw, x, spec_resp):
     """all clauses of the property for one (delta, operand); returns nothing, records violations"""
     d = L.mkrd(kw)
     case = {"law": "spec", "kw": L.kw_json(kw), "x": L.t_wire(x)}
+    if not L.weekday_ok(d.weekday):
+        ctx.case((repr(kw), L.t_wire(x)))
+        ctx.violation("relativedelta(%s).weekday is %r, not a weekday object" % (
+            ", ".join("%s=%r" % kv for kv in kw.items()), d.weekday), dict(case, law="weekday_attr"))
+        return
     r = impl_add(x, d)
     ctx.case((L.rd_wire(d), L.t_wire(x)), nontrivial=r.startswith("ok"))
     ctx.count("oracle_" + (r.split()[1] if r.startswith("err") else "ok"))
@@ -199,6 +229,12 @@ def oracle(ctx):
             continue
         pairs.append((kw, L.g_temporal(rng, ("d", "d", "n"))))
         ctx.count("single_time_source_" + fld)
+    # integer weekdays (calendar.MONDAY .. SUNDAY), alone and with a day, on a few operands each
+    for w in range(7):
+        for extra in ({}, {"day": 1}, {"days": 3}, {"hour": 0}):
+            for _ in range(3):
+                pairs.append((dict(extra, weekday=w), L.g_temporal(rng)))
+                ctx.count("int_weekday_cases")
     reqs = ["rd.spec %s %s" % (L.rd_wire(L.mkrd(kw)), L.t_wire(x)) for kw, x in pairs]
     spec = ctx.driver(reqs)
     for (kw, x), s in zip(pairs, spec):
